@@ -22,12 +22,12 @@ VARIABLES i, alive
 tv == <<i, alive>>
 ev == Rec[i]
 
-ToSet(s) == {s[k] : k \in 1..Len(s)}
+SeqSet(s) == {s[k] : k \in 1..Len(s)}
 InstOf(j) == [v |-> j.v, n |-> j.n,
-              parts |-> [p \in 1..Len(j.parts) |-> [bits |-> {b - 1 : b \in ToSet(j.parts[p].bits)},
-                                                    cl |-> ToSet(j.parts[p].cl), main |-> j.parts[p].main]]]
-BagOfSeq(s) == [c \in ToSet(s) |-> Cardinality({k \in 1..Len(s) : s[k] = c})]
-ObsOf(o) == [complete |-> o.complete, clients |-> BagOfSeq(o.clients)]
+              parts |-> [p \in 1..Len(j.parts) |-> [bits |-> {b - 1 : b \in SeqSet(j.parts[p].bits)},
+                                                    cl |-> SeqSet(j.parts[p].cl), main |-> j.parts[p].main]]]
+\* the clients as a sequence, in the order get_info returned them
+ObsOf(o) == [complete |-> o.complete, clients |-> o.clients]
 
 TInit == /\ i = 1 /\ alive = TRUE
          /\ inst = [v |-> "none", n |-> 0, parts |-> <<>>] /\ pool = <<>> /\ nparse = 0 /\ bug = 0 /\ act = [a |-> "init"]
@@ -63,7 +63,7 @@ MergeEv ==
          nbug == bug + (IF known THEN 1 ELSE 0)
          shape == inst.v \o ":" \o br \o "-for-" \o BranchExact(inst, self, other) IN
      IF detailed
-     THEN /\ pool' = RemoveAt([pool EXCEPT ![ev.i] = m2], ev.j)
+     THEN /\ pool' = DropAt([pool EXCEPT ![ev.i] = m2], ev.j)
           /\ bug' = nbug
           /\ act' = [a |-> "merge"]
           /\ IF propok THEN TRUE
